@@ -45,6 +45,10 @@ def lib():
         from auditok import core, util
 
         sched.install()
+        import warnings
+
+        # numpy's "mean of empty slice" on the empty blocks some configurations feed on purpose
+        warnings.filterwarnings("ignore", category=RuntimeWarning, module="numpy")
 
         class Crash(w.Worker):
             """An observer whose handler fails on its first message (its thread dies, as a real one would)."""
@@ -66,6 +70,8 @@ def lib():
             def read(self):
                 n = self._sizes[self._k % len(self._sizes)]
                 self._k += 1
+                if n == 0:
+                    return b""  # a live source with nothing to hand out right now: an empty block, not the end
                 parts = []
                 for _ in range(n):
                     b = super().read()
@@ -209,6 +215,24 @@ def make_factory(cfg):
             return make_cli(ctx, cfg, data, sw, ch)
         if cfg.get("ragged"):
             inner = L["Ragged"](data, cfg["ragged"], block_dur=BLOCK, sr=sr, sw=sw, ch=ch)
+        elif cfg.get("lazy_file"):
+            # a lazily read wav file: a source without a stream position
+            wavp = os.path.join(ctx.dir, "input.wav")
+            with wave.open(wavp, "wb") as fp:
+                fp.setframerate(sr)
+                fp.setsampwidth(sw)
+                fp.setnchannels(ch)
+                fp.writeframes(data)
+            inner = L["util"].AudioReader(wavp, block_dur=BLOCK, large_file=True)
+        elif cfg.get("stdin_live"):
+            # standard input fed by a live producer that never closes: whoever asks for more than was delivered waits for ever
+            ctx.live_stdin = sched.LiveStdin(data)
+            old_stdin = sys.stdin
+            sys.stdin = ctx.live_stdin
+            try:
+                inner = L["util"].AudioReader("-", block_dur=BLOCK, sr=sr, sw=sw, ch=ch)
+            finally:
+                sys.stdin = old_stdin
         else:
             inner = L["util"].AudioReader(data, block_dur=BLOCK, hop_dur=cfg.get("hop"), sr=sr, sw=sw, ch=ch)
         ctx.inner = LogReader(inner)
@@ -244,6 +268,8 @@ def make_factory(cfg):
                 if cfg.get("join_fault"):
                     _inject_write_fault(x, cfg["join_fault"])
                 ctx.joiners.append(x)
+            elif o == "regsave_bad":
+                x = w.RegionSaverWorker(os.path.join(ctx.dir, "no_such_dir", "bad_{id}.wav"))  # every save fails
             elif o == "regsave":
                 tpl = os.path.join(ctx.dir, cfg.get("template", "ev_{id}.wav"))
                 for stale in cfg.get("preexisting", ()):
@@ -493,6 +519,11 @@ def check(ex, ctx):
     if ex.outcome == "exit-kills-daemon-threads":
         return "the program's last non-daemon thread ended while %s still had work: as daemon threads they are killed at interpreter exit" % (
             sorted(t.name for t in ex.th if t.started and not t.finished),)
+    live = getattr(ctx, "live_stdin", None)
+    if ex.outcome == "deadlock" and live is not None and live.blocked_request == max(1, round(sr * BLOCK)) * sw * ch:
+        # the producer paused while the tokenizer was waiting for its next window: with a live input that wait is not
+        # the library's doing, and nothing can be said about this execution
+        return None
     if ex.outcome != "done":
         blocked = getattr(ex, "blocked", None) or [(t.name, t.pending and t.pending[0]) for t in ex.th if t.started and not t.finished]
         return "%s: threads never end: %s" % (ex.outcome, blocked)
@@ -515,6 +546,9 @@ def check(ex, ctx):
             # one read may already have passed its stop test when the request arrives; anything beyond that is new reading
             return "the tokenizer worker went on reading after the stop request: %d reads had been started then, %d in the end" % (
                 at_stop, ctx.inner.started)
+        live = getattr(ctx, "live_stdin", None)
+        if live is not None and live.taken > len(b"".join(ctx.inner.blocks)):
+            return "%d bytes were taken from standard input, the blocks read hold %d" % (live.taken, len(b"".join(ctx.inner.blocks)))
         k = len(ctx.inner.blocks)
         seen = b"".join(ctx.inner.blocks)
         if seen != ctx.data[: len(seen)]:
@@ -807,6 +841,9 @@ def plan(prop, tier):
         for p in ("AaA", "AAAA"):
             tasks.append((dict(kind="run", pattern=p, observers=["rec", "print"], split="s2", late_start=True), 1, 0, "sync", None, None))
             tasks.append((dict(kind="run", pattern=p, observers=["rec", "print"], split="s2", main_waits="tokenizer"), 1, 0, "sync", None, None))
+        # two observers that write files, one of which can never write: the other still saves every detection
+        tasks.append((dict(kind="run", pattern="AAaA", observers=["regsave_bad", "regsave", "rec"], split="s2", tolerate_crash=["RegionSaverWorker"]),
+                      1, 0, "sync", None, None))
         # environment faults the other threads must survive: the reader fails when closed at the end of the stream;
         # a file-writing observer dies of a full disk at its k-th write; files of an earlier run already carry the names
         for p in ("", "AaA", "AAAA"):
@@ -871,6 +908,13 @@ def plan(prop, tier):
         tasks.append((dict(kind="stop", pattern="A" * 300, observers=["rec"], split="s2", saver=True, cache=0.5), 10 ** 6, 0, "directed", None, None))
         for p in ("AaA", "AAAA"):
             tasks.append((dict(kind="stop", pattern=p, observers=["play"], split="s2"), K, 0, "sync", None, None))
+        # a logger on the worker and a source that has no stream position (lazily read file); standard input of a live producer
+        for p in ("AaAA", "AAAA"):
+            tasks.append((dict(kind="stop", pattern=p, observers=["rec"], split="s0", logger=True, lazy_file=True), 0 if quick else 1, 0, "sync", None, None))
+            tasks.append((dict(kind="stop", pattern=p, observers=["rec"], split="s0", stdin_live=True), 0 if quick else 1, 0, "sync", None, None))
+        tasks.append((dict(kind="stop", pattern="AaAA", observers=["rec"], split="s0", stdin_live=True, saver=True, cache=0.1), 0, 0, "sync", None, None))
+        # a live source that hands out an empty block now and then (not the end of the stream), under the stream saver
+        tasks.append((dict(kind="stop", pattern="AaAAaA", observers=["rec"], split="s0", saver=True, cache=0.1, ragged=[1, 1, 0, 1]), 0, 0, "sync", None, None))
         # stops arriving deep inside a silence / between detections, with plenty of stream left
         for p in (["aaaAA", "AaaaaA"] if quick else ["aaaAA", "AaaaaA", "aaaaaA", "AAaaaaAA"]):
             tasks.append((dict(kind="stop", pattern=p, observers=["rec"], split="s0"), 0 if quick else 1, 0, "sync", None, None))
@@ -901,7 +945,7 @@ def plan(prop, tier):
                 tasks.append((dict(base, pattern=p, observers=["join", "regsave"], saver=True, cache=c),
                               0 if quick else 1, 0, "sync", None, None))
         # silence durations x file name templates
-        for p in ["A", "AaA", "AaAaA"[:L]]:
+        for p in ["A", "AaA", "AaAaA"[:L], "aaaA"]:
             for sil in (0, 0.1, 0.25, 0.16, 0.37):
                 for tpl in ("ev_{id}.wav", "ev_{id}_{start}_{end}.wav", "ev_{duration:.3f}_{id}.wav"):
                     tasks.append((dict(base, pattern=p, observers=["join", "regsave"], silence=sil, template=tpl),
@@ -918,6 +962,14 @@ def plan(prop, tier):
             tasks.append((dict(base, pattern=p, observers=["join", "regsave"], saver=True, cache=0.1, late_start=True), 0, 0, "sync", None, None))
         # an output format that needs an external encoder (none can be run here): the audio is kept in the fallback wav
         tasks.append((dict(base, pattern="AaA", observers=[], saver=True, cache=0.1, saver_name="stream.ogg"), 0, 0, "sync", None, None))
+        # the command line program saving a stream in which nothing is detected (wav and raw)
+        for argv in (["-O", "<WD>stream.raw"], ["-O", "<WD>stream.wav"], ["-O", "<WD>stream.raw", "-j", "0.1"]):
+            tasks.append((dict(kind="cli", pattern="aaa", observers=[], split="s0", argv=argv), 0, 0, "sync", None, None))
+        # a live source that hands out an empty block now and then (it is not the end of the stream)
+        for c in (0.1, 1000):
+            tasks.append((dict(base, pattern="AaAAaA", observers=["join"], saver=True, cache=c, ragged=[1, 1, 0, 1]), 0, 0, "sync", None, None))
+        # a caller that starts everything and returns: the interpreter waits for the (non-daemon) threads, the files are complete
+        tasks.append((dict(base, pattern="AaA", observers=["join", "regsave"], saver=True, cache=0.1, main_waits="tokenizer"), 0, 0, "sync", None, None))
         # a reader whose blocks differ in length mid-stream, cache sizes between the short and the long blocks
         for sizes in ([1, 3], [1, 1, 3, 1, 2], [2, 1]):
             for c in (0.15, 0.25, 0.1):
